@@ -124,6 +124,15 @@ def Pairing.revoke (p : Pairing) (now : Nat) (id : String) : Pairing × Bool :=
 def Pairing.revokeAll (p : Pairing) (now : Nat) : Pairing :=
   { p with tokens := (prune now p.tokens).map (fun t => { t with enabled := false }) }
 
+/-- The store re-opened from its file (`PairingStore::load` / `with_clock` after a runtime restart).
+Every change other than dropping expired tokens is written to the file at once (`claim`, `revoke`,
+`revoke_all` save; `start_pairing`, `validate_with_role`, `list` save when pruning removed something),
+so the file can lag behind memory only by tokens whose expiry has already passed, which the first access
+after the reload drops again: the tokens — id, token string, role, enabled flag, expiry — survive exactly.
+The pending pairing code lives in memory only and is gone.  (`normalize_loaded_tokens` only touches
+entries with `expires_at = 0` from old files; the store never writes such entries.) -/
+def Pairing.reload (p : Pairing) : Pairing := { p with pending := none }
+
 /-! ## Endpoint state (the part of `ControlState` the gate reads) -/
 
 structure Endpoint where
@@ -490,16 +499,29 @@ def step (ep : Endpoint) : Line → Endpoint × Out
   | .notRequest => (ep, ⟨.invalid, []⟩)
   | .request r => handleRequest ep r
 
+/-- The runtime restarts: the pairing store is re-opened from its file (the other gates come from the
+runtime's configuration and are taken to be the same). -/
+def Endpoint.reload (ep : Endpoint) : Endpoint := { ep with pairing := ep.pairing.map (·.reload) }
+
 /-- Things that happen to an endpoint. -/
 inductive Event where
   | line (l : Line)
   /-- the pairing clock advances -/
   | tick (dt : Nat)
+  /-- the runtime restarts and re-opens the pairing store from its file -/
+  | reload
   deriving DecidableEq, Repr
 
 def stepEvent (ep : Endpoint) : Event → Endpoint × Option Out
   | .line l => let (ep', o) := step ep l; (ep', some o)
   | .tick dt => ({ ep with now := ep.now + dt }, none)
+  | .reload => (ep.reload, none)
+
+/-- The events of a history that are not lines: what the environment alone does. -/
+def envOnly : List Event → List Event
+  | [] => []
+  | .line _ :: es => envOnly es
+  | e :: es => e :: envOnly es
 
 /-- A whole history. -/
 def run (ep : Endpoint) : List Event → Endpoint × List Out
@@ -536,5 +558,6 @@ def ticks : List Event → Nat
   | [] => 0
   | .tick dt :: es => dt + ticks es
   | .line _ :: es => ticks es
+  | .reload :: es => ticks es
 
 end TrustVerif.C18
